@@ -130,3 +130,22 @@ def library_semantics(ctx, lib_cfgs, modules=("C01", "C02", "C03", "C04", "C05")
             ctx.obligations.append(o)
         for k, v in texts.items():
             ctx.rule_texts.setdefault(k, v)
+
+
+def cli_plumbing(ctx):
+    """what every answer printed by the CLI passes through, whatever the semantics: the text read is the text parsed (C08.F-input), no variable sort after an ADF
+    was constructed (C10.P-cli: the labels would be permuted against the values), T/F/u and the statement's own name at every position (C10.F-print).  The
+    per-flag rules of C15 are not included: a defect in the --stm arm does not break the grounded interpretation."""
+    from mirlib import facts
+    from rules import C08, C10
+
+    def fn(c):
+        c.cfg = "bin@default"
+        bin_ = c.load(facts.Config("bin"))
+        C10.P_cli(c, bin_)
+        C08.F_input(c, bin_, "bin", 3)
+        c.cfg = "lib@default"
+        C10.F_print(c, c.load(facts.Config("lib")))
+    saved = ctx.cfg
+    _run(ctx, "cli_plumbing", "bin@default", fn)
+    ctx.cfg = saved
